@@ -42,11 +42,16 @@ def _element(ctx, st, idx, nref, nfeat, shared_titles, with_cit=True):
     refs = []
     for k in range(nref):
         # title shared with another record or private to this one
+        authors = None
         if mk.bool("e%d_ref%d_shared" % (idx, k)):
             title = shared_titles[k % len(shared_titles)]
         else:
             title = "private-%d-%d" % (idx, k)
-        refs.append(make_ref(st, title))
+        if ctx.P.get("direct_submission"):
+            # every GenBank record carries its own 'Direct Submission' entry: same title, no PubMed id, other authors
+            title = "Direct Submission"
+            authors = "shared lab" if mk.bool("e%d_ref%d_same_authors" % (idx, k)) else "submitter %d-%d" % (idx, k)
+        refs.append(make_ref(st, title, authors))
     feats, spec = [], []
     for f in range(nfeat):
         if ctx.P.get("sympos", 0) == idx:
@@ -61,7 +66,7 @@ def _element(ctx, st, idx, nref, nfeat, shared_titles, with_cit=True):
         if ncit and with_cit:
             quals["citation"] = ["[%d]" % c for c in cits]
         feats.append(st.SeqFeature(st.SimpleLocation(s, s + ln, strand=1), type="misc_feature", qualifiers=quals))
-        spec.append(dict(label=label, cits=cits, titles=[refs[c - 1].title for c in cits]))
+        spec.append(dict(label=label, cits=cits, titles=[(refs[c - 1].title, refs[c - 1].authors) for c in cits]))
     ann = {"topology": "circular"}
     if nref and with_cit:
         ann["references"] = refs
@@ -100,7 +105,7 @@ def ob_citations(ctx):
     ctx.require(out["kind"] == "product", "assembly-with-citations-failed:" + out["kind"])
     prod = out["product"]
     prefs = prod.annotations.get("references", [])
-    titles = [r.title for r in prefs]
+    titles = [(r.title, r.authors) for r in prefs]
     ctx.observe("titles", titles)
     ctx.require(len(set(titles)) == len(titles), "duplicate-reference-in-product")
     by_label = {}
@@ -120,7 +125,7 @@ def ob_citations(ctx):
             ctx.require(mt is not None, "citation-not-in-bracketed-index-form:%r" % (g,))
             idx = int(mt.group(1))
             ctx.require(1 <= idx <= len(prefs), "citation-index-out-of-range")
-            ctx.require(prefs[idx - 1].title == want_title, "citation-points-to-another-reference")
+            ctx.require((prefs[idx - 1].title, prefs[idx - 1].authors) == want_title, "citation-points-to-another-reference")
             seen_cited.add(want_title)
         ctx.witness("cited-feature-retained", len(got) > 0)
     ctx.require(all(t in titles for t in seen_cited), "cited-reference-missing")
@@ -207,6 +212,11 @@ def obligations(tier, seed):
     if tier != "quick":
         shapes += [dict(m=1, nref=[2, 2], nfeat=[2, 1], ncit=[1, 1]), dict(m=2, nref=[2, 1, 2], nfeat=[1, 1, 1], ncit=[2, 1, 1]),
                    dict(m=2, nref=[2, 2, 0], nfeat=[2, 1, 0], ncit=[1, 2, 0]), dict(m=1, nref=[2, 2], nfeat=[1, 1], ncit=[2, 2])]
+    obs.append(Ob("citations of per-record 'Direct Submission' references m=2", ob_citations,
+                  dict(m=2, nref=[1, 1, 1], nfeat=[1, 1, 1], ncit=[1, 1, 1], sympos=0, direct_submission=True), samples=8,
+                  cost=3000))
+    obs.append(Ob("citations of per-record 'Direct Submission' references m=1 refs=[2,2]", ob_citations,
+                  dict(m=1, nref=[2, 2], nfeat=[1, 1], ncit=[1, 1], sympos=1, direct_submission=True), samples=8, cost=6000))
     for sh in shapes:
         for sympos in range(sh["m"] + 1):
             if sh["nfeat"][sympos] == 0:
